@@ -202,6 +202,10 @@ for n, tier in [(3, "quick"), (6, "thorough"), (8, "thorough")]:
     h("codec_decode_total_%d" % n, "net_codec::codec_decode_total::<S, %d>" % n, ["C09"], tier, unwind=12, stubs=CODEC_STUBS,
       family="codec_decode_total", cap=1500, mem_gb=20)
 h("codec_abort_roundtrip", "net_codec::codec_abort_roundtrip::<S>", ["C09"], "thorough", unwind=12, stubs=CODEC_STUBS, cap=3600, mem_gb=30)
+# two buffered frames: symbolic execution of BytesMut::extend_from_slice + two postcard decodes did not finish in 15 min (even with a
+# concrete split point); the same law is decided by the E3 query c09_frame_decode (integer buffer lengths).  Kept for native replay only.
+for hv in (6, 2):
+    h("codec_back_to_back_%d" % hv, "net_codec::codec_back_to_back::<S, %d>" % hv, ["C09"], "off", unwind=12, stubs=CODEC_STUBS, family="codec_back_to_back", cap=900, mem_gb=20)
 for sc, tier in [(0, "quick"), (1, "quick"), (2, "quick"), (3, "quick"), (4, "quick"), (5, "thorough")]:
     # kani-compiler 0.68 ICEs on the catch_unwind intrinsic reached through the drop glue of
     # std::thread::JoinHandle inside SyncHandle (DESIGN.md §10): kept for native witnesses, run by no tier
